@@ -146,6 +146,8 @@ structure DState where
   nSnapshots : Nat := 0
   nRecovered : Nat := 0
   nTolChecked : Nat := 0
+  /-- per index: the configuration and the keys the store predicates were last evaluated on -/
+  predCache : List (Nat × Metric × Nat × Option (Option Nat) × Store) := []
   nDefChecked : Nat := 0
   /-- the last `dist` records (metric name, a, b, built, normalised): symmetry is checked against them -/
   lastDist : List (String × List Nat × List Nat × Nat × Nat) := []
@@ -351,6 +353,14 @@ def storePredicates (d : DState) (s : Store) : DState := Id.run do
     let c : Cfg := { index, metric := info.metric, dims := info.dims, host := d.host }
     -- C06 structural part: an index without pending updates and with metadata must be a valid forest
     if (s.prefixIter index (some modeUpdated)).isEmpty then
+      -- the predicates are functions of the index's own keys and its configuration: nothing to do when the
+      -- last evaluation saw exactly this (dumps after read operations)
+      let mine := s.prefixIter index none
+      match d.predCache.find? (·.1 == index) with
+      | some (_, m0, d0, cap0, st0) =>
+        if m0 == info.metric && d0 == info.dims && cap0 == info.capHist && st0 == mine then continue
+      | none => pure ()
+      d := { d with predCache := (index, info.metric, info.dims, info.capHist, mine) :: d.predCache.filter (·.1 != index) }
       d := d.props "C01" (Check.forestValid c s)
       match info.capHist with
       | some (some cap) => d := d.props "C15" (Check.capacityOk c s cap)
@@ -1244,7 +1254,7 @@ def step (d : DState) (line : String) : DState :=
   | ["dump"] => { d with inDump := true, dumpKV := #[], step := d.step + 1 }
   | ["enddump"] => handleDump d
   | "case" :: n :: _ =>
-    { d with caseId := (parseNat? n).getD 0, step := 0, committed := [], txn := none, infos := [], pending := none,
+    { d with caseId := (parseNat? n).getD 0, step := 0, committed := [], txn := none, infos := [], predCache := [], pending := none,
              resync := false, preBuild := none, past := [], refs := [], caseFailures := 0, expectRecovered := false, junk := [], mapSweep := false,
              caseBuilds := 0, caseSplits := 0, caseQueries := 0, rawPending := #[], oldLayout := none, spec := [], specAtBegin := [],
              fresh := [], freshAtBegin := [], specOff := false,
